@@ -81,28 +81,34 @@ struct Recv
     using is_receiver = void;
     Got* g;
     template <typename... Ts>
+    // (the signal count is published last: a thread that has seen it may destroy the operation state this receiver lives in)
     void set_value(Ts&&... ts) && noexcept
     {
-        ++g->signals;
-        g->kind = 0;
+        Got* gg = g;
+        gg->kind = 0;
         int acc = 0;
         auto add = [&](auto const& x) {
             if constexpr (std::is_same_v<std::decay_t<decltype(x)>, int>) acc = acc * 31 + x;
             else for (int y : x) acc = acc * 31 + y;
         };
         (add(ts), ...);
-        g->v = acc;
+        gg->v = acc;
+        ++gg->signals;
     }
     void set_error(std::exception_ptr ep) && noexcept
     {
-        ++g->signals;
-        g->kind = 1;
-        if (!ep) { g->v = -3; return; }
-        try { std::rethrow_exception(ep); }
-        catch (TestErr const& t) { g->v = t.e; }
-        catch (...) { g->v = -2; }
+        Got* gg = g;
+        gg->kind = 1;
+        if (!ep) gg->v = -3;
+        else
+        {
+            try { std::rethrow_exception(ep); }
+            catch (TestErr const& t) { gg->v = t.e; }
+            catch (...) { gg->v = -2; }
+        }
+        ++gg->signals;
     }
-    void set_stopped() && noexcept { ++g->signals; g->kind = 2; g->v = 0; }
+    void set_stopped() && noexcept { Got* gg = g; gg->kind = 2; gg->v = 0; ++gg->signals; }
 };
 
 enum Adaptor { A_SPLIT, A_ENSURE_STARTED, A_SPLIT_TUPLE, A_WHEN_ALL, A_WHEN_ALL_VECTOR, A_ENSURE_STARTED_SPLIT, A_COUNT };
@@ -123,6 +129,10 @@ struct Case
     int adaptor = 0, nth = 2;
     std::vector<LeafSpec> leaves;    // 1 for split/ensure_started/split_tuple, 2..3 for when_all*
     std::vector<ConsSpec> cons;      // 1..3 consumers (copies of the split sender / elements of split_tuple); 1 for the others
+    // every consumer's operation state is destroyed by the thread that started it as soon as it has seen the completion signal
+    // (what sync_wait / start_detached / drop_operation_state do), instead of at the end of the case: whoever delivered the signal
+    // may still be inside the adaptor's shared state, which must stay alive for it (found F23 in split_tuple on the real runtime)
+    bool eager_destroy = false;
 };
 
 static Case decode(Tape& t)
@@ -151,6 +161,7 @@ static Case decode(Tape& t)
         s.drop_unstarted = nc > 1 && t.chance(1, 6);
         c.cons.push_back(s);
     }
+    c.eager_destroy = t.chance(1, 2);
     return c;
 }
 
@@ -166,7 +177,7 @@ static std::string describe(tape_t const& tape)
     os << "], \"consumers\": [";
     for (std::size_t i = 0; i < c.cons.size(); ++i)
         os << (i ? ", " : "") << "\"T" << c.cons[i].thread << " after " << c.cons[i].delay << (c.cons[i].drop_unstarted ? " drop_unstarted" : " start") << "\"";
-    os << "], \"schedule_tape_from\": " << t.pos << "}";
+    os << "], \"operation_states_destroyed\": \"" << (c.eager_destroy ? "by their starter as soon as it has seen the completion" : "at the end of the case") << "\", \"schedule_tape_from\": " << t.pos << "}";
     return os.str();
 }
 
@@ -191,6 +202,8 @@ static Outcome run(tape_t const& tape)
     // the consumer senders are built by thread 0 before anybody runs (construction itself is not the race)
     std::vector<std::optional<any_t>> senders(nc);
     std::vector<std::shared_ptr<void>> keep;    // operation states live until the end of the case
+    std::vector<std::shared_ptr<void>> own(nc);  // ... or until their starter has seen the completion (eager_destroy)
+    long long destroyed_early = 0;
     // expected completion
     int exp_kind = 0;
     std::vector<std::pair<int, int>> admissible;    // (kind, v)
@@ -282,7 +295,7 @@ static Outcome run(tape_t const& tape)
                     if (c.cons[k].drop_unstarted) { senders[k].reset(); cons_done[k] = 1; ++handled; vt::step(); continue; }
                     using OS = decltype(ex::connect(std::move(*senders[k]), Recv{&got[k]}));
                     std::shared_ptr<OS> os(new OS(ex::connect(std::move(*senders[k]), Recv{&got[k]})));
-                    keep.push_back(os);
+                    if (c.eager_destroy) own[k] = os; else keep.push_back(os);
                     senders[k].reset();
                     vt::step();
                     cons_in_start[k] = 1;
@@ -308,6 +321,15 @@ static Outcome run(tape_t const& tape)
                     vt::step();
                 }
             }
+            if (c.eager_destroy)
+                for (std::size_t k = 0; k < nc; ++k)
+                {
+                    if (c.cons[k].thread != th || c.cons[k].drop_unstarted) continue;
+                    while (got[k].signals == 0) s.decision(true);
+                    own[k].reset();    // the consumer is done with its operation state
+                    ++destroyed_early;
+                    vt::step();
+                }
             if (th == 0)
             {
                 // wait for every consumer's completion: nobody else can produce it once all threads are done
@@ -324,6 +346,7 @@ static Outcome run(tape_t const& tape)
     };
     s.run(t);
     keep.clear();
+    own.clear();
     {
         std::string q = vf::quarantine::check();
         if (!q.empty()) set_fail("write_after_free", q);
@@ -351,6 +374,7 @@ static Outcome run(tape_t const& tape)
     out.nontrivial = overlapped > 0;
     out.tags.push_back(std::string("adaptor:") + adaptor_names[c.adaptor]);
     if (overlapped) out.tags.push_back("saw:consumer_start_overlapped_predecessor_completion");
+    if (destroyed_early) out.tags.push_back("has:operation_states_destroyed_right_after_completion");
     return out;
 }
 
